@@ -572,7 +572,7 @@ def run(ctx):
 
 
 MANIFEST_ENTRY = {
-    "technique": "static analysis: abstract evaluation (rules/absint.py) of get_icu_keys / find_used_datakey / get_locales / parse_inner / build_datagen_driver_with_data_keys over generated key trees (families alone and in every order, None formatters, plural vs range counts, sub-keys, several namespaces), oracle = the families present in the tree; MIR who-writes-range_count; data-marker closure of each option family computed from the ICU4X sources Cargo.lock resolves (py/depsrc.py); MIR loop-exit / provenance rules as fallback",
+    "technique": "static analysis: abstract evaluation (rules/absint.py) of get_icu_keys -> get_icu_keys_inner -> find_used_datakey, get_locales, parse_inner and the datagen driver over generated key trees (each family alone / all five in every order, formatters on count variables, sub-key depth, namespaces), and of Options::into_data_keys per family; the data markers each run-time ICU4X constructor loads are read from the locked dependency sources (py/depsrc.py) and must be covered by the family's evaluated key list; MIR loop-exit rules as fallback",
     "level_text": "Finite abstract evaluation of the option walk (if and only if, any depth, any namespace) and of the locale list; the data keys of each family are closed against the markers required by the ICU4X constructors the run time calls, read from dependency sources. Generated ICU data is not inspected.",
     "level_note": "Fixed upstream: D22 (currency lacked decimal/symbols@1), D23 (namespaces = [] reported no locale). Completeness of the walked key information over locales/foreign keys is C08's clause.",
 }
